@@ -1,6 +1,8 @@
 import SnaxVerif.Drv.Basic
 import SnaxVerif.Model.StridePattern
+import SnaxVerif.Model.StridePatternZ
 import SnaxVerif.Model.PackBits
+import SnaxVerif.Model.PackOps
 import SnaxVerif.Model.AffineTransform
 import SnaxVerif.Model.AttrSyntax
 import SnaxVerif.Model.AccessCanon
@@ -50,6 +52,16 @@ def spCanon : Handler := fun j => do
   return Json.mkObj [("verify", Json.bool p.verify), ("canon", patToJson p.canonicalize),
     ("addrs", if size ≤ 100000 then jList jInt p.addrs else Json.null)]
 
+/-- args: {"ub": [int], "ts", "ss"} (any sign) -> {"verify", "canon", "addrs" | null} -/
+def spCanonZ : Handler := fun j => do
+  let p : Stride.PatternZ := { ub := ← listOf int (← field j "ub"), ts := ← listOf int (← field j "ts"),
+                               ss := ← listOf int (← field j "ss") }
+  let size : Nat := p.loops.foldl (fun (a : Nat) (l : Stride.LoopZ) => a * l.1.toNat) 1
+  let c := p.canonicalize
+  return Json.mkObj [("verify", Json.bool p.verify),
+    ("canon", Json.mkObj [("ub", jList jInt c.ub), ("ts", jList jInt c.ts), ("ss", jList jInt c.ss)]),
+    ("addrs", if size ≤ 100000 then jList jInt (Stride.offsZ p.loops) else Json.null)]
+
 /-! ### pack_bitlist -/
 
 def treeToJson : Pack.Tree → Json
@@ -67,6 +79,31 @@ def pack : Handler := fun j => do
   | .ok (some t) =>
     return Json.mkObj [("tree", treeToJson t), ("value", jNat t.eval), ("valueW", jNat (t.evalW w)),
       ("spec", jNat (Pack.spec vs os))]
+
+def srcOfJson (j : Json) : Except String Pack.Src := do
+  let a ← arr j
+  match ← str a[0]! with
+  | "lit" => return .lit (← nat a[1]!)
+  | "ext" => return .ext (← nat a[1]!)
+  | s => throw s!"bad src {s}"
+
+def refToJson : Pack.Ref → Json
+  | .op i => Json.arr #[Json.str "op", jNat i]
+  | .ext v => Json.arr #[Json.str "ext", jNat v]
+
+def opToJson : Pack.Op → Json
+  | .const v => Json.arr #[Json.str "const", jNat v]
+  | .shl a b => Json.arr #[Json.str "shl", refToJson a, refToJson b]
+  | .or a b => Json.arr #[Json.str "or", refToJson a, refToJson b]
+
+/-- args: {"vs": [["lit"|"ext", nat]], "os": same} -> {"raised"} | {"ops": [...], "vals": [nat] | null} -/
+def packOps : Handler := fun j => do
+  let vs ← listOf srcOfJson (← field j "vs")
+  let os ← listOf srcOfJson (← field j "os")
+  match Pack.emit vs os with
+  | .error .lengthMismatch => return Json.mkObj [("raised", Json.str "ValueError")]
+  | .ok ops =>
+    return Json.mkObj [("ops", jList opToJson ops), ("vals", jOpt (jList jNat) (Pack.execFrom [] ops))]
 
 /-! ### AffineTransform -/
 
@@ -190,6 +227,10 @@ def mutateToks (toks : List Syntax.Tok) (j : Json) : Except String (List Syntax.
     return (toks.set i tj).set jx ti
   | "minus" => return toks.take i ++ Syntax.Tok.minus :: toks.drop i
   | "comma" => return toks.take i ++ Syntax.Tok.comma :: toks.drop i
+  | "ident" => return toks.set i (Syntax.Tok.ident "zz")
+  | "opt" => return match ti with
+    | .ident _ => toks.set i (Syntax.Tok.ident "bm")
+    | _ => toks
   | _ => throw s!"bad mutation {op}"
 
 /-- args: {"ub","ts","ss","mut"} -> {"toks": printed tokens, "parsed": attr | null (of the damaged tokens)} -/
@@ -197,7 +238,8 @@ def spSyntax : Handler := fun j => do
   let toks := Syntax.printSP (← spaOfJson j)
   let toks' ← mutateToks toks (← field j "mut")
   return Json.mkObj [("toks", jList tokToJson toks),
-    ("parsed", jOpt (fun p => spaToJson p.1) (Syntax.parseSP toks'))]
+    ("parsed", jOpt (fun p => spaToJson p.1)
+      (if flag j "fixed" then Syntax.parseSP toks' else Syntax.parseSPLoose toks'))]
 
 def spParse : Handler := fun j => do
   let toks ← listOf tokOfJson (← field j "toks")
@@ -287,7 +329,7 @@ def apHandler : Handler := fun j => do
     return Json.mkObj [("built", apToJson p), ("canon", apToJson canon), ("inner", inner)]
 
 def handlers : List (String × Handler) :=
-  [("c19.canon", canon), ("c19.eval", evalPts), ("c19.sp_canon", spCanon), ("c19.pack", pack),
+  [("c19.canon", canon), ("c19.eval", evalPts), ("c19.sp_canon", spCanon), ("c19.sp_canon_z", spCanonZ), ("c19.pack", pack), ("c19.pack_ops", packOps),
    ("c19.at_tomap", atToMap), ("c19.at_frommap", atFromMap), ("c19.at_compose", atCompose),
    ("c19.at_compose_eval", atComposeEval), ("c19.at_eval", atEval), ("c19.sp_syntax", spSyntax),
    ("c19.sp_parse", spParse), ("c19.cfg_syntax", cfgSyntax), ("c19.cfg_parse", cfgParse),
